@@ -79,6 +79,7 @@ def stepLedger (toks : List String) : String :=
     match ofHex b, ofHex alt, ofHex trailing with
     | some b, some alt, some tr => txProp (lookupKey tbl) b alt tr
     | _, _, _ => "bad-op"
+  | "holdarr" :: _ => "ok"   -- held ToArray()/GetMessage() results re-checked after later encodings: evaluated on the implementation
   | "conc" :: _ => "ok"      -- concurrent decoding of the same items: evaluated on the implementation (the model is a pure function)
   | ["txbig", n, fill, nonce] =>
     match n.toNat?, ofHex fill, nonce.toNat? with
